@@ -316,6 +316,15 @@ def selfRef (r : Rec) : Bool :=
   | some n => (r.segRefs ++ r.itemRefs).contains n
   | none => false
 
+/-- the identifier of `r` (if any) is carried by a real line other than the one at index `i` -/
+def nameTakenElsewhere (st : St) (r : Rec) (i : Nat) : Bool :=
+  match r.name with
+  | none => false
+  | some n =>
+    match st.lines.findIdx? (fun q => q.name = some n) with
+    | some j => j != i && !(st.lines.getD j default).virt
+    | none => false
+
 /-- `Gfa.add_line` for a connected-state Gfa of known version -/
 def add (st : St) (r : Rec) : Except Err St :=
   if !allowed st.ver r.rt then .error .version else
@@ -326,7 +335,10 @@ def add (st : St) (r : Rec) : Except Err St :=
     | none => .error .format
     | some l =>
       match findCompatIdx st l with
-      | some i => addLinkOnto st r l i
+      | some i =>
+        -- the ID tag is looked up first (`_search_duplicate`): an identifier carried by another real line is a clash,
+        -- whatever stored link the new one is compatible with
+        if nameTakenElsewhere st r i then .error .notUnique else addLinkOnto st r l i
       | none => addLinkFresh st r
   else
     match r.name with
